@@ -143,6 +143,25 @@ CHECKS = {
         "documented ordering).",
         "DESIGN.md section 4, C09",
     ),
+    "C10": (
+        "fault_enumeration",
+        "enumerated crash-point injection: forked victim killed with "
+        "os._exit at every intercepted mutating file operation (and inside "
+        "writes), recovery and immediate reap in fresh forked processes",
+        "For each generated scenario (raw/Runner/Harvester/Sampler crop, "
+        "victim = sow / re-sow / three ways of growing / reap+sync+clean-up) "
+        "a dry run counts the mutating file operations; every one of them is "
+        "a crash point (writes also torn at three prefixes, the C-level save "
+        "call as begin/torn/end), some followed by a second crash during "
+        "recovery.  After each crash an immediate reap must refuse or be "
+        "exact, the documented recovery must deliver exactly the "
+        "uninterrupted result, and the earlier harvested/sampled data must "
+        "still be in its file.",
+        "Process death only (no power-loss model); HDF5/pandas writes are "
+        "represented by three states of the target file; rmtree is emulated "
+        "entry by entry in three listing orders.",
+        "DESIGN.md section 4, C10",
+    ),
     "C11": (
         "exploration",
         "schedule exploration with a harness-owned cooperative scheduler: "
